@@ -78,6 +78,17 @@ Theorem C24_secondary_kind_prefix_refuted :
 Proof. exact prefix_refuted. Qed.
 Print Assumptions C24_secondary_kind_prefix_refuted.
 
+(* ... and outside that class of inputs (guard [wrong_kind]: the first digest item is a
+   well-formed secondary claim of the kind the configuration does not name) the pinned tree's
+   verification already accepts exactly the authorised blocks. *)
+Theorem C24_accept_iff_prefix_partial :
+  forall (R : Type) key_valid below vrf_verify seal_verify equiv (c : cfg) (h : header R),
+  allowed c <= 2 -> wrong_kind c (h_digest h) = false ->
+  (verify_prefix R key_valid below vrf_verify seal_verify equiv c h = Ok tt <->
+   authorised R key_valid below vrf_verify seal_verify equiv c h).
+Proof. exact accept_iff_prefix_partial. Qed.
+Print Assumptions C24_accept_iff_prefix_partial.
+
 (* ---- non-vacuity: authorised blocks of each kind exist and are accepted *)
 Example C24_nonvacuous :
   let kv := fun _ : N => true in
